@@ -41,3 +41,12 @@ func simSetCounter[T ~uint32 | ~uint64 | ~int32 | ~int64 | ~uint | ~int](p *T, v
 
 // SimSetCorrelationID replaces the (random) correlation id generator.
 func SimSetCorrelationID(f func() string) { generateCorrelationID = f }
+
+// SimCompletedCall does to a context what a finished call on a registry-backed
+// client transport (adapter, NATS) does to it: the call is registered under the
+// context's op id and unregistered when it is over.
+func SimCompletedCall(ctx FContext) {
+	r := newFRegistry()
+	r.Register(ctx, make(chan []byte, 1))
+	r.Unregister(ctx)
+}
